@@ -433,6 +433,8 @@ struct Lexed {
     err: Option<Result<(String, u32), String>>,
     unlexed: Option<String>,
     whole: Option<String>,
+    /// the lexer diagnostic as the compiler prints it (`LexerError` through `MessagePrinter`), or the panic of printing it
+    rendered: Option<Result<String, String>>,
 }
 
 fn lex_real(text: &str, fl: &Flags) -> Lexed {
@@ -448,13 +450,17 @@ fn lex_real(text: &str, fl: &Flags) -> Lexed {
     }
     let mut raw: Vec<PreprocessToken> = Vec::new();
     let mut err = None;
+    let mut rendered = None;
     loop {
         if ts.end_of_stream() {
             break;
         }
         match guard(|| ts.next(fl.inc)) {
             Ok(Ok(t)) => raw.push(t),
-            Ok(Err(LexerError { reason, location })) => {
+            Ok(Err(e)) => {
+                use rssl::text::CompileErrorExt;
+                rendered = Some(guard(|| format!("{}", e.display(&sm))));
+                let LexerError { reason, location } = e;
                 err = Some(Ok((format!("{:?}", reason), location.get_raw().wrapping_sub(braw))));
                 let _ = LexerErrorReason::EndOfStream;
                 break;
@@ -509,7 +515,7 @@ fn lex_real(text: &str, fl: &Flags) -> Lexed {
     } else {
         None
     };
-    Lexed { toks, err, unlexed, whole }
+    Lexed { toks, err, unlexed, whole, rendered }
 }
 
 /// name of a panic site of TokenStream::next (the model uses the same names)
@@ -710,6 +716,31 @@ pub fn run_lex(text: &str, fl: &Flags, hist: &mut Hist) -> (String, String) {
     if let Some(w) = &lx.whole {
         if w != "same" {
             fails.push(w.clone());
+        }
+    }
+    // the diagnostic as printed: `<file>:<line>:<col>: error: <message>`, the source line, the caret — the position
+    // must be the line and column of the offset, inside the file
+    if let (Some(Ok((reason, off))), Some(r)) = (&lx.err, &lx.rendered) {
+        if *off <= n && text.is_char_boundary(*off as usize) {
+            let o = *off as usize;
+            let line = 1 + bytes[..o].iter().filter(|c| **c == b'\n').count();
+            let start = bytes[..o].iter().rposition(|c| *c == b'\n').map(|i| i + 1).unwrap_or(0);
+            let end = bytes[o..].iter().position(|c| *c == b'\n').map(|i| o + i).unwrap_or(bytes.len());
+            let col = o - start + 1;
+            match r {
+                Ok(t) => {
+                    let head = format!(":{}:{}: error: ", line, col);
+                    let tail = format!("\n{}\n{}^\n", &text[start..end], " ".repeat(col - 1));
+                    if !(t.starts_with(&head) && t.ends_with(&tail) && t.len() > head.len() + tail.len()) {
+                        fails.push(format!("diagnostic {} at offset {} is printed as {:?}, expected position {}:{}", reason, off, t, line, col));
+                    } else {
+                        hist.add("rendered_diagnostics_checked");
+                    }
+                }
+                Err(p) => fails.push(format!("printing the diagnostic {} at offset {} panics: {}", reason, off, p)),
+            }
+        } else if *off <= n {
+            fails.push(format!("diagnostic position {} is inside a multi-byte character", off));
         }
     }
     if fails.is_empty() {
